@@ -64,6 +64,11 @@ def parse_dump_xml(wtp: "Wtp", dump_path: str, namespace_ids: set[int]) -> None:
             text: str | None = None
             redirect_to: str | None = None
             model = page_element.findtext("{*}revision/{*}model", "")
+            if model not in {"wikitext", "Scribunto", "json"}:
+                # ignore css, javascript and sanitized-css pages, also when
+                # they are redirects (a redirect has a content model too)
+                page_element.clear(keep_tail=True)
+                continue
             if (
                 redirect_element := page_element.find("{*}redirect")
             ) is not None:
@@ -72,10 +77,6 @@ def parse_dump_xml(wtp: "Wtp", dump_path: str, namespace_ids: set[int]) -> None:
                 # .get default to "" is a bit weird: redirect to empty string?
                 # But you can't use None either..?
             else:
-                if model not in {"wikitext", "Scribunto", "json"}:
-                    # ignore css, javascript and sanitized-css pages
-                    page_element.clear(keep_tail=True)
-                    continue
                 text = page_element.findtext("{*}revision/{*}text", "")
 
             wtp.add_page(
